@@ -3,7 +3,7 @@ from collections.abc import Callable
 from typing import TypeVar, Union
 
 import reactivex
-from reactivex import Observable
+from reactivex import Observable, abc
 from reactivex.internal.utils import infinite, is_future
 from reactivex.typing import AnyFuture, Predicate
 
@@ -29,8 +29,13 @@ def while_do_(
             obs = reactivex.from_future(source)
         else:
             obs = source
-        it = itertools.takewhile(condition, (obs for _ in infinite()))
-        return reactivex.concat_with_iterable(it)
+
+        def factory(_: abc.SchedulerBase) -> Observable[_T]:
+            # the repetition iterator is created per subscription
+            it = itertools.takewhile(condition, (obs for _ in infinite()))
+            return reactivex.concat_with_iterable(it)
+
+        return reactivex.defer(factory)
 
     return while_do
 
